@@ -29,7 +29,13 @@ RoundClauses(o) ==
   LET x == QV(o.in.x)
       d == o.in.d
       r == o.out
-  IN IF ~RoundSafe(x, d) THEN <<>>
+  IN IF ~RoundSafe(x, d)
+     THEN (IF d = 0 /\ BigUnitSafe(x)          \* large numbers rounded to whole numbers
+           THEN IF ~NumV(r) \/ ~WholeNear(x, QV(r)) THEN <<"not_the_adjacent_whole_number">>
+                ELSE CASE o.in.f = "ROUND" -> Cl("ROUND", SameSignOrZero(QV(r), x) /\ Near0(x, QV(r)))
+                       [] o.in.f = "ROUNDUP" -> Cl("ROUNDUP", SameSignOrZero(QV(r), x) /\ UpAbs0(x, QV(r)))
+                       [] o.in.f = "ROUNDDOWN" -> Cl("ROUNDDOWN", SameSignOrZero(QV(r), x) /\ DownAbs0(x, QV(r)))
+           ELSE <<>>)
      ELSE IF ~NumV(r) \/ ~ResSafe(QV(r)) THEN <<"not_a_number">>
      ELSE CASE o.in.f = "ROUND" -> Cl("ROUND", RoundRel(x, d, QV(r)))
             [] o.in.f = "ROUNDUP" -> Cl("ROUNDUP", RoundUpRel(x, d, QV(r)))
@@ -39,7 +45,10 @@ AdjClauses(o) ==
   LET x == QV(o.in.x)
       s == QV(o.in.s)
       r == o.out
-  IN IF s.n = 0 \/ ~Small(x) \/ ~Small(s) THEN <<>>
+  IN IF s.n = 1 /\ s.d = 1 /\ ~Small(x) /\ BigUnitSafe(x)
+     THEN (IF ~NumV(r) \/ ~WholeNear(x, QV(r)) THEN <<"not_the_adjacent_whole_number">>
+           ELSE IF o.in.f = "CEILING" THEN Cl("CEILING", Ceil0(x, QV(r))) ELSE Cl("FLOOR", Floor0(x, QV(r))))
+     ELSE IF s.n = 0 \/ ~Small(x) \/ ~Small(s) THEN <<>>
      ELSE IF o.in.f = "CEILING"
      THEN IF s.n > 0 THEN Cl("CEILING", NumV(r) /\ ResSafe(QV(r)) /\ AdjacentRel(x, s, QV(r), "up"))
           ELSE IF x.n <= 0 THEN Cl("CEILING_negative", NumV(r) /\ ResSafe(QV(r)) /\ AdjacentRel(x, s, QV(r), "down"))
@@ -52,7 +61,9 @@ AdjClauses(o) ==
 IntClauses(o) ==
   LET x == QV(o.in.x)
       r == o.out
-  IN IF ~Small(x) THEN <<>>
+  IN IF ~Small(x)
+     THEN (IF o.in.f = "INT" /\ BigUnitSafe(x)
+           THEN Cl("INT", NumV(r) /\ WholeNear(x, QV(r)) /\ Floor0(x, QV(r))) ELSE <<>>)
      ELSE CASE o.in.f = "INT" -> Cl("INT", IsNI(r, QFloor(x)))
             [] o.in.f = "EVEN" -> Cl("EVEN", NumV(r) /\ ResSafe(QV(r)) /\ ParityRel(x, QV(r), 0))
             [] o.in.f = "ODD" -> Cl("ODD", NumV(r) /\ ResSafe(QV(r)) /\ ParityRel(x, QV(r), 1))
@@ -62,7 +73,9 @@ QmClauses(o) ==
   LET n == QV(o.in.n)
       d == QV(o.in.d)
       r == o.out.a
-  IN IF ~Small(n) \/ ~Small(d) THEN <<>>
+  IN IF d.n = 1 /\ d.d = 1 /\ ~Small(n) /\ BigUnitSafe(n)
+     THEN Cl("QUOTIENT", NumV(r[1]) /\ WholeNear(n, QV(r[1])) /\ SameSignOrZero(QV(r[1]), n) /\ DownAbs0(n, QV(r[1])))
+     ELSE IF ~Small(n) \/ ~Small(d) THEN <<>>
      ELSE IF d.n = 0 THEN Cl("zero_divisor_must_be_an_error", ErrV(r[1]) /\ ErrV(r[2]))
      ELSE Cl("QUOTIENT", IsNI(r[1], TruncQuot(n, d)))
           \* the statement's own words: number = divisor * integer + MOD, with the divisor's sign
